@@ -137,6 +137,12 @@ class C13:
             if i > 0 and rng.random() < 0.33:
                 node["parent"] = rng.randrange(i)
             nodes.append(node)
+        # buildpack directories that are symlinks to directories outside the workspace (never a directory that holds nested
+        # buildpacks: the walk does not descend through links)
+        parents = {nd["parent"] for nd in nodes if "parent" in nd}
+        for k, nd in enumerate(nodes):
+            if k not in parents and "parent" not in nd and rng.random() < 0.15:
+                nd["link"] = True
         return {"nodes": nodes, "root_lists": [[idperm[r] if r < n else r for r in rl] for rl in root_lists]}
 
     def gen(self, rng, tier):
